@@ -103,6 +103,25 @@ func freeRound(b *tv.Batch, round int) {
 			_ = pool.Size()
 		}
 	}()
+	// further Cancel callers released at the same instant (Cancel may be called by several goroutines at once)
+	for x := 0; x < round%3; x++ {
+		wg.Add(1)
+		go func() {
+			defer wg.Done()
+			<-start
+			for i := 0; i < 3*(round%17); i++ {
+				runtime.Gosched()
+			}
+			func() {
+				defer func() {
+					if p := recover(); p != nil {
+						ev("panic", tv.M{"op": "parallel-cancel", "what": fmt.Sprint(p)})
+					}
+				}()
+				pool.Cancel()
+			}()
+		}()
+	}
 	wg.Add(1)
 	go func() {
 		defer wg.Done()
